@@ -859,3 +859,43 @@ fn c09_decompress_bookkeeping() {
     std::mem::forget(r);
     std::mem::forget(s);
 }
+
+// ---- LZW / Flate stage entry points called directly (no Filter dictionary involved) ----------------
+/// decompress_lzw: /EarlyChange is an INTEGER (ISO 32000-1 Table 8: 0 or 1, default 1) and selects the
+/// decoder variant; the tagged weezl stub makes the chosen variant observable
+/// (0xA5 = early change, 0xAA = late).
+#[kani::proof]
+#[kani::unwind(6)]
+#[kani::stub(std::string::String::from_utf8_lossy, lossy_stub)]
+fn c09_lzw_early_change_param() {
+    let input: [u8; 3] = kani::any();
+    let e: i64 = kani::any();
+    kani::assume(e == 0 || e == 1);
+    let present: bool = kani::any();
+    let mut d = Dictionary::new();
+    d.set("EarlyChange", int_or_null(present, e));
+    let r = Stream::decompress_lzw(&input, Some(&d));
+    let early = if present { e != 0 } else { true };
+    let t = if early { 0xA5 } else { 0xAA };
+    match &r {
+        Ok(v) => assert!(v.len() == 3 && v[0] == input[0] ^ t && v[1] == input[1] ^ t && v[2] == input[2] ^ t, "EarlyChange parameter not honoured (integer 0 = late change, 1 or absent = early change)"),
+        Err(_) => panic!("LZW stage failed"),
+    }
+    kani::cover!(present && e == 0);
+    kani::cover!(!present);
+    std::mem::forget(r);
+    std::mem::forget(d);
+}
+
+/// decompress_zlib / decompress_lzw without parameters: output of the codec is passed through unchanged.
+#[kani::proof]
+#[kani::unwind(6)]
+fn c09_stage_no_params() {
+    let input: [u8; 3] = kani::any();
+    let z = Stream::decompress_zlib(&input, None);
+    let l = Stream::decompress_lzw(&input, None);
+    assert!(matches!(&z, Ok(v) if v.len() == 3 && v[0] == input[0] ^ 0x55 && v[2] == input[2] ^ 0x55), "Flate stage without parameters must return the inflated bytes");
+    assert!(matches!(&l, Ok(v) if v.len() == 3 && v[0] == input[0] ^ 0xA5 && v[2] == input[2] ^ 0xA5), "LZW stage without parameters must use early change and return the decoded bytes");
+    kani::cover!(true);
+    std::mem::forget((z, l));
+}
